@@ -244,6 +244,13 @@ namespace pika::threads::detail {
             if (0 != work_items_count_count && work_items_.pop(thrd, other_end))
             {
                 --work_items_count_.data_;
+#if defined(PIKA_VERIF)
+                PIKA_VERIF_POINT(121, threads::detail::get_thread_id_data(thrd),
+                    static_cast<std::uint64_t>(threads::detail::get_thread_id_data(thrd)
+                                                   ->get_state(std::memory_order_relaxed)
+                                                   .verif_raw()),
+                    reinterpret_cast<std::uint64_t>(this));
+#endif
                 ::pika::detail::tqmc_deb.debug(debug::detail::str<>("get_next_thread"), "stealing",
                     other_end, "D", debug::detail::dec<2>(holder_->domain_index_), "Q",
                     debug::detail::dec<3>(queue_index_), "n",
@@ -268,6 +275,13 @@ namespace pika::threads::detail {
         /// Schedule the passed thread (put it on the ready work queue)
         void schedule_work(threads::detail::thread_id_ref_type thrd, bool other_end)
         {
+#if defined(PIKA_VERIF)
+            PIKA_VERIF_POINT(120, threads::detail::get_thread_id_data(thrd),
+                static_cast<std::uint64_t>(threads::detail::get_thread_id_data(thrd)
+                                               ->get_state(std::memory_order_relaxed)
+                                               .verif_raw()),
+                reinterpret_cast<std::uint64_t>(this));
+#endif
             ++work_items_count_.data_;
             ::pika::detail::tqmc_deb.debug(debug::detail::str<>("schedule_work"), "stealing",
                 other_end, "D", debug::detail::dec<2>(holder_->domain_index_), "Q",
